@@ -341,6 +341,13 @@ def _check_build(prefix, ks, expect_reject, env):
     raised = True
   return raised == expect_reject
 
+def _check_build_group(cases, env):
+  for prefix, ks, expect in cases:
+    if not _check_build(prefix, ks, expect, env):
+      if not _VF_SYMBOLIC: print('C08 build-time case failed:', (prefix, ks, 'reference rejects' if expect else 'reference accepts'))
+      return False
+  return True
+
 def _check_fault(pipe, mk, env, kfail, mode):
   """Sinks under a fault after kfail records: every sink saw exactly the records that reached it, once, in order, and
   is closed exactly once - after the caller has handled (dropped) the error."""
@@ -576,6 +583,7 @@ REPR = [
     ('batch', 2), ('batch', 1),
     ('sink', SELF), ('sink', T('a', 'a')),
 ]
+REPR_QUICK = [op for j, op in enumerate(REPR) if j not in (2, 6, 13, 16)]
 REPR_SMALL = [REPR[0], REPR[1], REPR[4], REPR[5], REPR[8], REPR[9], REPR[12], REPR[14], REPR[15], REPR[17], REPR[18]]
 
 # identity / aliasing family: only pass-through operators and assigns, so every output descends from one caller record
@@ -602,7 +610,7 @@ def identity_shapes(depth):
 # build-time acceptance / rejection of assign key sets
 PREFIXES = [
     [], [('select', 'a', None)], [('select', T('a', 'b'), T('x', 'y'))], [('select', SELF, None)],
-    [('apply', 'two', 'a', T('p', P('m', 't')))], [('apply', 'rec', SELF, SELF)], [('apply', 'duv', 'a', D(c='u', q='v'))],
+    [('apply', 'two', 'a', T('p', P('m', 't')))], [('apply', 'duv', 'a', D(c='u', q='v'))], [('apply', 'rec', SELF, SELF)],
     [('assign', 'inc', 'a', 'c')], [('assign', 'two', 'a', T('c', P('m', 't')))], [('assign', 'duv', 'a', D(p='u', q='v'))],
     [('assign', 'inc', 'a', SELF)], [('filter', 'gt', 'a')], [('select', 'a', None), ('filter', 'gt', 'a')],
     [('assign', 'inc', 'a', 'c'), ('filter', 'gt', 'a')], [('batch', 2)], [('select', T('a', 'b'), None), ('batch', 2)],
@@ -688,16 +696,18 @@ class Emitter:
         i = _pick(sel, {len(chunk)})
         return _check(SH_{name}[i], lambda: {self._mk(kind, vals)}, {{'k': k, 'th': th}}, {identity})"""))
 
-  def build(self, prefix, cases, cap):
+  def build(self, prefix, cases, cap, group=8):
+    """Key sets carry no symbolic data: one path checks a group of cases, the selector picks the group."""
     self.counts[prefix] = self.counts.get(prefix, 0) + len(cases)
-    for j in range(0, len(cases), cap):
-      chunk = cases[j:j + cap]
+    groups = [cases[j:j + group] for j in range(0, len(cases), group)]
+    for j in range(0, len(groups), cap):
+      chunk = groups[j:j + cap]
       name = f'ob_{prefix}_{j // cap:03d}'
       self.bundles[name] = chunk
       self.src.append(f'SH_{name} = {chunk!r}\n')
       self.src.append(xh.fn(name, 'sel: int, k: int', f'0 <= sel < {len(chunk)}', f"""
         i = _pick(sel, {len(chunk)})
-        return _check_build(SH_{name}[i][0], SH_{name}[i][1], SH_{name}[i][2], {{'k': k, 'th': 0}})"""))
+        return _check_build_group(SH_{name}[i], {{'k': k, 'th': 0}})"""))
 
   def fault(self, prefix, shapes, mode, n):
     self.counts[prefix] = self.counts.get(prefix, 0) + len(shapes)
@@ -768,7 +778,7 @@ def gen(p, pending):
   E.route('ident', sort_in(seq_ident, 'L', 2), 'L', 2, True, cap)
   # 4. build-time rejection iff the reference predicate says so
   cases, pend_cases = [], {t: [] for t in PENDING_TAGS}
-  for prefix in PREFIXES:
+  for prefix in PREFIXES[::p['prefix_stride']]:
     for ks in keysets(p['keyset_len']):
       m = Model()
       for op in prefix:
@@ -796,7 +806,7 @@ def gen(p, pending):
       uniq = [s for j, s in enumerate(shapes) if s not in shapes[:j]][:p['pending_cap']]
       E.route(f'pending_{tid}', uniq, kind, nn, False, cap)
     if pend_cases[t]:
-      E.build(f'pending_{tid}_build', pend_cases[t][:p['pending_cap'] * 4], p['build_cap'])
+      E.build(f'pending_{tid}_build', pend_cases[t][:p['pending_cap'] * 4], p['build_cap'], group=1)
   # 7. vacuity witnesses
   params, vals = E._params(3)
   E.raw(xh.fn('wit_filter_drops', f'{params}, k: int, th: int', 'True', f"""
@@ -849,10 +859,10 @@ def run(tier):
               tree.TreeMapView.__getitem__, tree.TreeMapView._set_by_path, tree.TreeMapView.set, tree._default_tree, tree.normalize_keys,
               transform._RunnerIterator.__init__, transform.ChainedRunner.iterate)
   if tier == 'quick':
-    p = dict(n=3, cap=70, full_cross=False, seqs=[(2, REPR, 2)], identity_depth=2, identity_n=2, keyset_len=2, build_cap=400, pending_cap=40)
+    p = dict(n=3, cap=50, full_cross=False, seqs=[(2, REPR_QUICK, 2)], identity_depth=2, identity_n=2, keyset_len=2, prefix_stride=2, build_cap=30, pending_cap=40)
     timeout = 150
   else:
-    p = dict(n=3, cap=150, full_cross=True, seqs=[(2, REPR, 3), (3, REPR_SMALL, 3)], identity_depth=3, identity_n=3, keyset_len=3, build_cap=800,
+    p = dict(n=3, cap=150, full_cross=True, seqs=[(2, REPR, 3), (3, REPR_SMALL, 3)], identity_depth=3, identity_n=3, keyset_len=3, prefix_stride=1, build_cap=200,
              pending_cap=200)
     timeout = 1200
   env = os.environ.get('VF_C08_PENDING', '')
@@ -864,7 +874,7 @@ def run(tier):
                                        + '; 19 select shapes; 12 filter and 12 sink input shapes; batch sizes 0..4; 25 Index-key operators on tuple and on list records',
              key_shapes='single key, tuple of keys, nested Key path (also through a list index), Index, dict/kwargs input keys, dict-form output keys, SELF, SKIP, Literal',
              identity_family=f'assign/filter/sink sequences up to length {p["identity_depth"]} on {p["identity_n"]} records, separate and shared nested objects',
-             build_time=f'{len(PREFIXES)} prefixes x every assign key tuple of length <= {p["keyset_len"]} over {len(ATOMS)} key atoms',
+             build_time=f'{len(PREFIXES[::p["prefix_stride"]])} prefixes x every assign key tuple of length <= {p["keyset_len"]} over {len(ATOMS)} key atoms',
              fault_positions=f'upstream / downstream / own-write failure after k = 0..{p["n"]} records',
              shapes=E.counts, skipped_by_generator=E.skipped, per_condition_timeout_s=timeout,
              values='all record fields, the constant k used by the functions and the filter threshold are unbounded symbolic ints')
